@@ -203,8 +203,45 @@ func (e *Engine) sliceLenConst(sl SliceV) (int, bool) {
 	return 0, false
 }
 
+// resolveLen: the concrete value of a length term when the path condition determines it
+// (syntactically through an equality conjunct, otherwise by asking the solver).
+func (e *Engine) resolveLen(s *State, ln *Term) (int, bool) {
+	if ln.IsConst() {
+		return int(ln.C), true
+	}
+	for i := len(s.pc) - 1; i >= 0; i-- {
+		t := s.pc[i]
+		if t.Op == OpEq && t.Args[0] == ln && t.Args[1].IsConst() {
+			return int(t.Args[1].C), true
+		}
+	}
+	ok, m := e.feasibleM(s, e.tc.True, "length value")
+	if !ok || m == nil {
+		as := append([]*Term{}, s.pc...)
+		v, mm, vals := e.sol.Check("length value", as, ln)
+		if v != Sat || len(vals) != 1 {
+			return 0, false
+		}
+		_ = mm
+		k := vals[0]
+		if e.feasible(s, e.tc.Ne(ln, e.tc.BV(k, ln.Sort.W)), "length unique") {
+			return 0, false
+		}
+		return int(k), true
+	}
+	ev := newEvaluator(copyModel(m))
+	k := ev.eval(ln)
+	if !ev.ok {
+		return 0, false
+	}
+	if e.feasible(s, e.tc.Ne(ln, e.tc.BV(k, ln.Sort.W)), "length unique") {
+		return 0, false
+	}
+	return int(k), true
+}
+
 func (e *Engine) sliceElems(s *State, sl SliceV) []Value {
-	n, ok := e.sliceLenConst(sl)
+	n, ok := e.resolveLen(s, sl.Len)
 	if !ok {
 		panic(unsupported("elements of a slice with symbolic length"))
 	}
